@@ -53,8 +53,27 @@ TEMPLATES = [
     ("after-empty-literal", lambda R: seq(lit(""), R)),
     ("after-nonempty-empty-literal", lambda R: seq(grp("nonempty", grp("opt", lit(""))), R)),
     ("after-typed-empty-literal", lambda R: seq(lit("", "Ident"), R)),
+    # a capture whose operand is itself a nullable group written inside the capture: @[ "a" ]  @( "a"? "b"? )  @( "a"* )
+    ("after-captured-bracket-opt", lambda R: seq(cap("C", "string", grp("opt", A)), R)),
+    ("after-captured-nullable-group", lambda R: seq(cap("C", "string", grp("once", seq(grp("opt", A), grp("opt", B)))), R)),
+    ("after-captured-star-group", lambda R: seq(cap("C", "strings", grp("once", grp("star", A))), R, B)),
+    ("after-captured-token", lambda R: seq(cap("C", "string", grp("once", seq(grp("opt", A), B))), R)),
+    # the reference inside the operand of a negation that is one element of a longer sequence
+    ("in-negation-operand", lambda R: alt(seq({"op": "neg", "kid": grp("once", seq(RNC(R), A))}, B), A)),
+    ("in-negation-operand-captured", lambda R: seq({"op": "neg", "kid": grp("once", seq(R, A))}, B, L)),
+    ("after-negation-operand", lambda R: seq({"op": "neg", "kid": grp("once", seq(A, B))}, R)),
     ("terminal", None),
 ]
+
+
+def extra_fields(n, acc=None):
+    """fields of the captures other than K (the reference) found in a body"""
+    acc = [] if acc is None else acc
+    if n["op"] == "cap" and n["f"] != "K" and n["f"] not in [f["name"] for f in acc]:
+        acc.append(P.F(n["f"], n["fk"]))
+    for k in n.get("kids", []) + ([n["kid"]] if isinstance(n.get("kid"), dict) else []):
+        extra_fields(k, acc)
+    return acc
 
 
 def RNC(R):
@@ -80,8 +99,8 @@ def family(rng, quick):
             else:
                 u = target if target.startswith("U") else "U" + target[1:]
                 R = cap("K", "union", {"op": "union", "u": u})
-                fields = [P.F("K", "union", u)]
                 body = fn(R)
+                fields = [P.F("K", "union", u)] + extra_fields(body)
             prods.append(("P%d" % pi, body, fields))
         try:
             g = P.mk_grammar(gid, prods, unions=unions, ks=(1,))
@@ -128,7 +147,7 @@ def family(rng, quick):
                 body0 = fn(R, N)
                 R1 = cap("K", "union", {"op": "union", "u": "U0"})
                 body1 = TEMPLATES[p1t][1](R1) if TEMPLATES[p1t][1] else seq(cap("T", "string", A), grp("opt", B))
-                f1 = [P.F("K", "union", "U0")] if TEMPLATES[p1t][1] else [P.F("T", "string")]
+                f1 = ([P.F("K", "union", "U0")] + extra_fields(body1)) if TEMPLATES[p1t][1] else [P.F("T", "string")]
                 body2 = grp("star", cap("Z", "strings", A))
                 try:
                     g = P.mk_grammar("n%d" % len(gs), [("P0", body0, [P.F("N", "unions", "U2"), P.F("K", "union", "U" + target[1:])]), ("P1", body1, f1), ("P2", body2, [P.F("Z", "strings")])], unions=unions, ks=(1,))
